@@ -24,38 +24,30 @@ pub fn compare(cx: &mut RunCx, buf: &RollbackBuffer, model: &[Point], op: &str) 
     Ok(())
 }
 
-/// one rollback on both; with duplicate points the statement does not say which occurrence is
-/// kept, so the model accepts truncation after any occurrence and adopts the one the buffer chose
+/// one rollback on both. The list model finds a point the way a list does - its first occurrence
+/// (`Vec::iter().position`, which is also what `RollbackBuffer::position` documents) - and keeps
+/// everything up to it.
 pub fn rollback(cx: &mut RunCx, buf: &mut RollbackBuffer, model: &mut Vec<Point>, p: &Point) -> Result<(), Violation> {
-    let occ: Vec<usize> = model.iter().enumerate().filter(|(_, x)| *x == p).map(|(i, _)| i).collect();
+    let first = model.iter().position(|x| x == p);
+    let dup = model.iter().filter(|x| *x == p).count() > 1;
     let eff = buf.roll_back(p);
-    match (occ.is_empty(), eff) {
-        (true, RollbackEffect::OutOfScope) => {
+    match (first, eff) {
+        (None, RollbackEffect::OutOfScope) => {
             cx.st.inc("probe.rollback_out_of_scope");
             model.clear();
         }
-        (true, RollbackEffect::Handled) => {
+        (None, RollbackEffect::Handled) => {
             return cx.report(Violation::new("model", "roll_back:handled-unknown-point", format!("roll_back({:?}) reported Handled but the point is not buffered ({:?})", p, model)));
         }
-        (false, RollbackEffect::OutOfScope) => {
+        (Some(_), RollbackEffect::OutOfScope) => {
             return cx.report(Violation::new("model", "roll_back:out-of-scope-known-point", format!("roll_back({:?}) reported OutOfScope but the point is buffered ({:?})", p, model)));
         }
-        (false, RollbackEffect::Handled) => {
+        (Some(i), RollbackEffect::Handled) => {
             cx.st.inc("probe.rollback_handled");
-            if occ.len() > 1 {
+            if dup {
                 cx.st.inc("probe.rollback_to_duplicated_point");
             }
-            let real_len = buf.size();
-            match occ.iter().find(|i| **i + 1 == real_len) {
-                Some(i) => model.truncate(i + 1),
-                None => {
-                    return cx.report(Violation::new(
-                        "model",
-                        "roll_back:wrong-truncation",
-                        format!("roll_back({:?}) left {} points; the point occurs at positions {:?} of {:?}", p, real_len, occ, model),
-                    ));
-                }
-            }
+            model.truncate(i + 1);
         }
     }
     compare(cx, buf, model, "roll_back")
@@ -107,12 +99,7 @@ impl Scenario for Hist {
                     let p = pt(cx.ch.draw("point", alphabet));
                     let want = model.iter().position(|x| *x == p);
                     let got = buf.position(&p);
-                    // with duplicates any occurrence is a position of the point
-                    let ok = match (got, want) {
-                        (None, None) => true,
-                        (Some(g), Some(_)) => model.get(g) == Some(&p),
-                        _ => false,
-                    };
+                    let ok = got == want;
                     if !ok {
                         cx.report(Violation::new("model", "position", format!("position({:?}) = {:?}, model {:?}", p, got, want)))?;
                     }
